@@ -481,6 +481,22 @@ theorem C37_cfl_every_cell (sqrt : K → K) (hq : SqrtSpec sqrt) (cf c : K) (hcf
   · exact le_trans (mul_le_mul_of_nonneg_left hmono hpos) hmain
   · exact le_trans (mul_nonpos_of_nonpos_of_nonneg (le_of_lt hneg) hRloc) hcf
 
+/-- **a grid accepted as uniform still respects its smallest cell**: when the verdict is "uniform" (recorded spacing
+`rnd (nominal)`, whatever the rounding does), the step satisfies the CFL bound built from the minimum widths. -/
+theorem C37_cfl_uniform_accepted (sqrt : K → K) (hq : SqrtSpec sqrt) (cf c : K) (hcf : 0 ≤ cf) (hc : 0 < c)
+    (rnd : K → K) (tol eps8 : K) (ex ey ez : List K)
+    (vx : validEdges ex = true) (vy : validEdges ey = true) (vz : validEdges ez = true)
+    (hu : isUniform tol eps8 ex ey ez = true) :
+    uniformSpacing rnd tol eps8 ex ey ez = some (rnd (nominal ex)) ∧
+    cflTimeStep sqrt cf c (some (rnd (nominal ex))) (minSpacing ex) (minSpacing ey) (minSpacing ez) * c
+      * sqrt (invMetric (minSpacing ex) (minSpacing ey) (minSpacing ez)) ≤ cf := by
+  obtain ⟨sx, lx⟩ := sorted_of_validEdges ex vx
+  obtain ⟨sy, ly⟩ := sorted_of_validEdges ey vy
+  obtain ⟨sz, lz⟩ := sorted_of_validEdges ez vz
+  refine ⟨by unfold uniformSpacing; rw [if_pos hu], ?_⟩
+  exact C37_cfl_bound sqrt hq cf c hcf hc _ _ _ _ (minSpacing_spec ex sx lx).1 (minSpacing_spec ey sy ly).1
+    (minSpacing_spec ez sz lz).1
+
 namespace AsFound
 
 /-- **Refutation witness for the pinned tree**: x edges `[0, 1, 1.99995]`, y = z edges `[0, 1, 2]` are detected as
@@ -586,6 +602,42 @@ theorem C37_uniform_widths_close (tol eps8 : K) (htol : 0 ≤ tol) (heps : 0 ≤
   exact ⟨(C37_axisUniform_iff tol eps8 _ htol heps ex).mp hu.1.1,
     (C37_axisUniform_iff tol eps8 _ htol heps ey).mp hu.1.2,
     (C37_axisUniform_iff tol eps8 _ htol heps ez).mp hu.2⟩
+
+/-- **two-sided**: the rule is symmetric in the sign of the deviation — a cell counts whether it is NARROWER or WIDER
+than the nominal spacing (the code takes `max |w − s|`, not `|max (w − s)|`) -/
+theorem C37_axisUniform_two_sided (tol eps8 s : K) (htol : 0 ≤ tol) (heps : 0 ≤ eps8) (e : List K) :
+    axisUniform tol eps8 s e = true ↔
+      ∀ i, i + 1 < e.length →
+        s - (tol * |s| + eps8 * maxAbs e) ≤ width e i ∧ width e i ≤ s + (tol * |s| + eps8 * maxAbs e) := by
+  rw [C37_axisUniform_iff tol eps8 s htol heps]
+  constructor
+  · intro h i hi
+    have := abs_le.mp (h i hi)
+    constructor <;> linarith [this.1, this.2]
+  · intro h i hi
+    obtain ⟨h1, h2⟩ := h i hi
+    exact abs_le.mpr ⟨by linarith, by linarith⟩
+
+/-- one cell narrower than the nominal spacing by more than the bound — on any axis — makes the grid non-uniform,
+exactly like one wider cell does -/
+theorem C37_narrow_or_wide_cell_detected (tol eps8 : K) (htol : 0 ≤ tol) (heps : 0 ≤ eps8) (ex ey ez : List K)
+    (h : (∃ i, i + 1 < ex.length ∧ (width ex i < nominal ex - (tol * |nominal ex| + eps8 * maxAbs ex) ∨
+                                     nominal ex + (tol * |nominal ex| + eps8 * maxAbs ex) < width ex i)) ∨
+         (∃ i, i + 1 < ey.length ∧ (width ey i < nominal ex - (tol * |nominal ex| + eps8 * maxAbs ey) ∨
+                                     nominal ex + (tol * |nominal ex| + eps8 * maxAbs ey) < width ey i)) ∨
+         (∃ i, i + 1 < ez.length ∧ (width ez i < nominal ex - (tol * |nominal ex| + eps8 * maxAbs ez) ∨
+                                     nominal ex + (tol * |nominal ex| + eps8 * maxAbs ez) < width ez i))) :
+    isUniform tol eps8 ex ey ez = false ∧ ∀ rnd : K → K, uniformSpacing rnd tol eps8 ex ey ez = none := by
+  apply C37_nonuniform_detected tol eps8 htol heps
+  have key : ∀ (w b : K), (w < nominal ex - b ∨ nominal ex + b < w) → b < |w - nominal ex| := by
+    intro w b hw
+    rcases hw with hw | hw
+    · exact lt_abs.mpr (Or.inr (by linarith))
+    · exact lt_abs.mpr (Or.inl (by linarith))
+  rcases h with ⟨i, hi, hw⟩ | ⟨i, hi, hw⟩ | ⟨i, hi, hw⟩
+  · exact Or.inl ⟨i, hi, key _ _ hw⟩
+  · exact Or.inr (Or.inl ⟨i, hi, key _ _ hw⟩)
+  · exact Or.inr (Or.inr ⟨i, hi, key _ _ hw⟩)
 
 /-- **"at any scale"**: multiplying every edge by `a > 0` (a change of length unit) does not change the verdict —
 the rule is purely relative, including its round-off floor. -/
@@ -778,6 +830,9 @@ example : reduceAxis (1 / 10000 : ℚ) true [0, 1, 2, 3] = .error "err-odd" := b
 /-- the as-found CFL witness grid IS detected as uniform with recorded spacing 1 and smallest x width 0.99995 -/
 example : uniformSpacing (α := ℚ) id (1 / 10000) 0 [0, 1, 199995 / 100000] [0, 1, 2] [0, 1, 2] = some 1 := by decide +kernel
 example : minSpacing (α := ℚ) [0, 1, 199995 / 100000] = 99995 / 100000 := by decide +kernel
+/-- a coarse rim with a refined centre (only NARROWER cells than the first x cell) is not uniform, nor is one thin end cell -/
+example : uniformSpacing (α := ℚ) id (1 / 10000) 0 [0, 1, 3 / 2, 2, 3] [0, 1, 2] [0, 1, 2] = none := by decide +kernel
+example : uniformSpacing (α := ℚ) id (1 / 10000) 0 [0, 1, 2] [0, 1, 2] [0, 1, 2, 5 / 2] = none := by decide +kernel
 /-- a genuinely stretched grid is not -/
 example : uniformSpacing (α := ℚ) id (1 / 10000) 0 [0, 1, 2] [0, 1, 2] exEdges = none := by decide +kernel
 
